@@ -15,7 +15,8 @@ CLAIMED = {
     "C08": ("MovingWindow with a table change score of free reals and symbolic threshold scale: the score at t is "
             "the term T(t-b,t,t+b) summed over columns (0 elsewhere), detections are one maximiser per maximal "
             "qualifying run of score>threshold (each comparison implied by the path condition), and a product run "
-            "on the mirrored table shows the time-reversal symmetry; plus ChangeScore(L2Cost) on symbolic data",
+            "on the mirrored table shows the time-reversal symmetry; the same on integer-typed data; plus ChangeScore(L2Cost) "
+            "on symbolic data",
             "4.C08"),
     "C07": ("SeededBinarySegmentation with a table change score of free reals and symbolic threshold scale over an "
             "enumerated (n, m, M, growth factor) grid: candidate intervals admissible and non-empty, per-interval "
@@ -36,7 +37,8 @@ CLAIMED = {
     "C16": ("MVCAPA runs with table savings and symbolic penalties plus find_affected_components as a unit: for every "
             "reported anomaly z3 (LRA) decides that the listed columns are in decreasing saving order, that no excluded "
             "column beats an included one and that their penalised saving dominates that of every non-empty column "
-            "subset; transform marks exactly those cells",
+            "subset; transform marks exactly those cells; the same when the detector is fitted on labelled columns and asked "
+            "about the same columns in another order (column-tagged table savings)",
             "4.C16"),
     "C04": ("path enumeration of all seven detectors on table scorers of free reals (each path = one reachable "
             "control-flow behaviour for the size); on every path the concrete output frame is checked for index, "
@@ -45,7 +47,9 @@ CLAIMED = {
     "C06": ("the three adapters over table / uninterpreted costs return exactly the defining cost differences (term "
             "identities decided by z3); CUSUM^2 and L2Saving equal the L2-cost definitions on symbolic data (NRA, sqrt "
             "as a defined algebraic number); non-negativity, optimal<=fixed and the split inequality for L2 (nlsat) "
-            "and for the univariate Gaussian cost with explicitly instantiated log lemmas (with a vacuity twin)",
+            "and for the univariate Gaussian cost with explicitly instantiated log lemmas (with a vacuity twin); the three "
+            "adapters over every built-in cost in every parameter mode (symbolic data, symbolic scalar / per-column parameters) "
+            "against that cost's own evaluate; native differential run on int32 / int64 count data (testing part)",
             "4.C06"),
     "C13": ("evaluate of eight scorers on a cut row of symbolic integers in [-2, n+2]^k: the scorer's own validation "
             "forks on them, indexing case-splits all feasible values through NumPy's real indexing; z3 decides on "
@@ -63,13 +67,15 @@ CLAIMED = {
             "[-1, n+1] (validation forks, slices case-split), symbolic means / variances; z3 decides that every entry is "
             "mean + sqrt(var) z inside the requested segment and z elsewhere, that positions outside the data raise "
             "ValueError and valid ones do not, that equal arguments give identical terms, and that add_linspace_outliers "
-            "touches exactly the evenly spaced rows",
+            "touches exactly the evenly spaced rows; disjoint anomalies in any listed order with one symbolic mean / variance "
+            "per anomaly and column; real-RNG runs with per-column parameters against mean + sqrt(var) * Z0 of the same seed",
             "4.C18"),
     "C17": ("StatThresholdAnomaliser over a stub change detector returning any changepoint list of symbolic integers and a "
             "statistic returning one free real per segment, with symbolic bounds: on every path the reported intervals are "
             "exactly the segments whose flag (stat<lower or stat>upper) the path condition implies (z3), adjacent flagged "
             "segments stay separate, the user's detector stays unfitted; same with real PELT / MovingWindow / SBS on "
-            "table scorers inside (product run); lower>upper raises ValueError",
+            "table scorers inside (product run); lower>upper raises ValueError; the real NumPy reductions mean / var / std / "
+            "median / max / min / sum on symbolic data against their textbook definitions (NRA)",
             "4.C17"),
     "C05": ("detection sets as tuples of symbolic integers under the validity predicate of the sparse format, every "
             "solution enumerated by the solver (all-SAT through integer case splitting) and pushed through "
@@ -85,17 +91,21 @@ CLAIMED = {
     "C12": ("scorers on symbolic data evaluated on X and on the transformed X (column permutation, symbolic per-column "
             "shift, symbolic positive scale with instantiated log(ab) lemma, time reversal) in the same path: z3 (NRA) "
             "decides equality of the two terms for every cut; detectors with column-permuted table scorers, PELT on the "
-            "reversed and on the length-shifted cost table, MovingWindow on shifted symbolic data (product runs)",
+            "reversed and on the length-shifted cost table, MovingWindow on shifted symbolic data (product runs); reversal and "
+            "column reversal also with one scorer object refitted on a view of the data it holds",
             "4.C12"),
     "C11": ("product runs in one symbolic path: the same matrix of symbolic values handed to each detector (table scorers "
             "recording what they are fitted on) and to the built-in scorers as DataFrame / ndarray / Series / other labels "
             "and indexes through fit, predict, transform, transform_scores and update; outputs compared as detections and "
             "as z3 terms; int64 vs float64 compared natively at solver-generated integer witnesses (testing part)",
             "4.C11"),
-    "C10": ("product programs: ten enumerated call histories (earlier predict / transform / fits on other data and shapes, "
-            "repeated calls, a second detector sharing the scorer object, clone, set_params, update vs fit on combined "
-            "data) and their fresh-object references run in the same symbolic path with dataset-tagged table scorers; "
-            "observed outputs compared as detections and z3 terms; fit/evaluate histories of eight scorers on symbolic data",
+    "C10": ("product programs: twenty enumerated call histories (earlier predict / transform / fits on other data, on other "
+            "shapes and on another dataset of the SAME shape and index, repeated calls, a second detector sharing the scorer "
+            "object, a differently configured instance first, clone, set_params, nested parameters, update vs fit on combined "
+            "data, a caller-side buffer refilled in place between fit and predict with thresholds tuned at fit) and their "
+            "fresh-object references run in the same symbolic path with dataset-tagged table scorers; observed outputs compared "
+            "as detections and z3 terms; fit / evaluate histories of eight scorers on symbolic data incl. the same cuts on "
+            "same-shape data, a reused buffer and refits on views",
             "4.C10"),
 }
 PENDING = {}
